@@ -394,7 +394,34 @@ impl Check for C01 {
         // redundant paths: the node/segment graph has a cycle iff it has more edges (attached ports)
         // than vertices - 1 (it is connected by construction)
         let edges: usize = plan.nodes.iter().map(|nd| nd.ports.iter().filter(|p| p.segment.is_some()).count()).sum();
-        let has_cycle = edges > plan.nodes.len() + plan.n_segments - 1;
+        // (the generator may produce several components - a node that finds every segment full opens
+        // a new one - so count them: a forest has V - C edges)
+        let n_vertices = plan.nodes.len() + plan.n_segments;
+        let mut comp: Vec<usize> = (0..n_vertices).collect();
+        fn find(c: &mut Vec<usize>, x: usize) -> usize {
+            let mut r = x;
+            while c[r] != r {
+                r = c[r];
+            }
+            let mut y = x;
+            while c[y] != r {
+                let n = c[y];
+                c[y] = r;
+                y = n;
+            }
+            r
+        }
+        for (ni, nd) in plan.nodes.iter().enumerate() {
+            for p in nd.ports.iter() {
+                if let Some(sg) = p.segment {
+                    let a = find(&mut comp, ni);
+                    let b = find(&mut comp, plan.nodes.len() + sg);
+                    comp[a] = b;
+                }
+            }
+        }
+        let n_components = (0..n_vertices).filter(|v| find(&mut comp, *v) == *v).count();
+        let has_cycle = edges + n_components > n_vertices;
         // A corrupted Announce of the noisy prelude can describe a grandmaster that does not exist;
         // in a topology with redundant paths its data then circulate until stepsRemoved reaches 255
         // (see below), so the first convergence gets the same allowance there.
